@@ -254,6 +254,7 @@ func concHistory(cfg c11cfg, seed int64, procs, txns int) (rec, error) {
 	var seq int64
 	var mu sync.Mutex
 	var all []txnRec
+	var closeErrs []string
 	var wg sync.WaitGroup
 	// callbacks are attributed per goroutine: use one world-wide log but only one writer per id at a time
 	for p := 0; p < procs; p++ {
@@ -261,6 +262,7 @@ func concHistory(cfg c11cfg, seed int64, procs, txns int) (rec, error) {
 		go func(p int) {
 			defer wg.Done()
 			rng := rand.New(rand.NewSource(seed + int64(p)*7919))
+			var stale store.ReadTxn // a transaction of this goroutine that is closed already
 			for k := 0; k < txns; k++ {
 				id := c11ids[rng.Intn(2)]
 				tr := txnRec{id: id, write: rng.Intn(3) != 0}
@@ -271,6 +273,11 @@ func concHistory(cfg c11cfg, seed int64, procs, txns int) (rec, error) {
 					t = w.st.Read(id)
 				}
 				tr.open = atomic.AddInt64(&seq, 1)
+				if stale != nil && k%2 == 1 {
+					// closing a finished transaction once more (an explicit Close followed by a deferred one)
+					// is an error at most: it is no operation on the store and frees nobody's lock
+					stale.Close()
+				}
 				n := 1 + rng.Intn(3)
 				for j := 0; j < n; j++ {
 					op := []string{"value", "exists"}[rng.Intn(2)]
@@ -303,16 +310,20 @@ func concHistory(cfg c11cfg, seed int64, procs, txns int) (rec, error) {
 					tr.calls = append(tr.calls, c)
 				}
 				tr.close = atomic.AddInt64(&seq, 1)
-				t.Close()
+				cerr := t.Close()
+				stale = t
 				mu.Lock()
 				all = append(all, tr)
+				if cerr != nil {
+					closeErrs = append(closeErrs, fmt.Sprintf("%s: Close of the open transaction %d..%d failed (%v): somebody else had closed it", id, tr.open, tr.close, cerr))
+				}
 				mu.Unlock()
 			}
 		}(p)
 	}
 	wg.Wait()
 	sort.Slice(all, func(i, j int) bool { return all[i].open < all[j].open })
-	overlap := []string{}
+	overlap := append([]string{}, closeErrs...)
 	for i := range all {
 		for j := i + 1; j < len(all); j++ {
 			a, b := all[i], all[j]
